@@ -150,6 +150,17 @@ pub fn revive_uuid(txn: &mut QueryServerWriteTransaction, u: Uuid) -> Result<(),
     txn.revive_recycled(&re)
 }
 
+/// Revive a SET of entries with ONE `revive_recycled` operation (an or-filter over the uuids, as a
+/// recycle-bin administrator's multi-match revive filter would): everything recycled among them comes back
+/// in the same operation, together with their cascade-deleted dependents.
+pub fn revive_uuids(txn: &mut QueryServerWriteTransaction, us: &[Uuid]) -> Result<(), OperationError> {
+    let f = filter_all!(f_or(
+        us.iter().map(|u| f_eq(Attribute::Uuid, PartialValue::Uuid(*u))).collect()
+    ));
+    let re = ReviveRecycledEvent::from_parts(Identity::from_internal(), &f, txn)?;
+    txn.revive_recycled(&re)
+}
+
 /// Revive as a given (real) identity: recycle-bin administrators go through access controls.
 pub fn revive_uuid_as(
     txn: &mut QueryServerWriteTransaction,
